@@ -124,14 +124,29 @@ Definition prune_weak (S : schema) (d : dbstate) : option dbstate :=
              end))
         (Some d) (s_tables S).
 
-(** the whole commit-time processing of a candidate state *)
+(** the whole commit-time processing of a candidate state.  As in ovsdb-server
+    (update_ref_counts before collect_garbage), strong references are checked
+    on the candidate state *before* garbage collection: a dangling strong
+    reference is an error even when the row holding it would be collected.
+    Collection never creates a dangling strong reference (only rows nobody
+    strongly references are removed).  Like updates/references.go, each round
+    collects one level of unreferenced rows and then prunes weak references of
+    the surviving rows (checking their minimum); rounds repeat until nothing
+    changes. *)
+Fixpoint ref_loop (fuel : nat) (S : schema) (d : dbstate) : res dbstate :=
+  match fuel with
+  | O => Err EOther   (* out of fuel: excluded by [ref_loop_fuel_enough]-style hypotheses, never observed *)
+  | Datatypes.S f =>
+    let d1 := gc1 S d in
+    match prune_weak S d1 with
+    | None => Err EConstraint
+    | Some d2 => if decide (d2 = d) then Ok d else ref_loop f S d2
+    end
+  end.
+
 Definition process_refs (S : schema) (d : dbstate) : res dbstate :=
-  let d1 := gc (Datatypes.S (db_size d)) S d in
-  if dangling_strong S d1 then Err ERefInt
-  else match prune_weak S d1 with
-       | Some d2 => Ok d2
-       | None => Err EConstraint
-       end.
+  if dangling_strong S d then Err ERefInt
+  else ref_loop (db_size d + 2) S d.
 
 (** the integrity predicate of C04 *)
 Definition RI (S : schema) (d : dbstate) : Prop :=
